@@ -346,6 +346,9 @@ def run(cx, rep):
     rep.rule("C07.9", "a function that enumerates the values of an enum lists every variant once")
     n79 = enum_enumerator_rule(F, rep, "C07.9", lambda f: f.crate != WASM)
     rep.floor("C07.9", "parameterless functions returning the list of an enum's values", n79, 2)
+    # ---------------------------------------------------------------- C07.10
+    rep.rule("C07.10", "a key looked up in the declared properties of an object is not answered without its index signature")
+    declared_lookup_rule(cx, rep, "C07.10")
     # ---------------------------------------------------------------- C07.8
     rep.rule("C07.8", "a result built from one element of a sequence payload accounts for the whole sequence")
     carriers = lambda f: f.crate != "canary" and ((f.file or "").endswith(("subtyping/to_schema.rs", "ast/runtype.rs")) or "/src/print/" in (f.file or ""))
@@ -774,3 +777,134 @@ def enum_enumerator_rule(F, rep, rid, select):
 
 def strip_generics_(s_):
     return re.sub(r"::<[^>]*>", "", s_)
+
+
+def declared_lookup_rule(cx, rep, rid):
+    """An object type is `declared properties + (maybe) an index signature`.  Code that takes an object apart and
+    LOOKS A KEY UP in the declared properties answers for the object only if it knows what a miss means: with an
+    index signature a key that is not declared still has a type (the signature's value type).  The syntactic shortcut
+    of `T[K]` restricts itself to objects whose pattern says `indexed_properties: None`; extended to all objects it
+    drops the undeclared keys of a union index (`Record<string, number>["a" | "b"]` becomes `never`).  Decided for
+    every function of the frontend / IR that destructures `RuntypeKind::Object` WITHOUT requiring
+    `indexed_properties: None` and looks keys up in `vs`: the index signature is consulted on a condition that
+    dominates the lookup (`if !indexed_properties.is_none() { break }` before it, an enclosing test), or in the code
+    that handles the miss (the else-branch of the hit test and what follows it)."""
+    F = cx.rs
+    LOOKUPS = {"get", "contains_key", "get_mut", "remove", "get_key_value"}
+    n_sites = 0
+    for g, t in sorted(F.hir.items()):
+        f = F.fns.get(g)
+        if f is None or f.crate == WASM or g.startswith("<") or not re.search(r"/src/(frontend|ast)/", f.file or ""):
+            continue
+        pats = [p for p in walk(t["body"]) if p["k"] == "P.Struct" and (p.get("def") or "").endswith("RuntypeKind::Object")]
+        if not pats:
+            continue
+        parent = {}
+        for x in walk(t["body"]):
+            for c in _children(x):
+                parent[id(c)] = x
+
+        def up(n):
+            out = []
+            while id(n) in parent:
+                n2 = parent[id(n)]
+                out.append((n, n2))
+                n = n2
+            return out
+
+        def mentions(e, lid):
+            return e is not None and any(x["k"] == "Path" and x.get("lid") == lid for x in walk(e))
+
+        def diverges(e):
+            return e is not None and any(x["k"] in ("Ret", "Break", "Continue") for x in walk(e))
+
+        def stmt_expr(st):
+            return st.get("e") if st["k"] in ("ExprStmt", "Semi") else st
+        for p in pats:
+            fl = {x.get("name"): x["pat"] for x in p.get("fields", [])}
+            vs, ip = fl.get("vs"), fl.get("indexed_properties")
+            if vs is None or vs["k"] != "P.Binding":
+                continue
+            if ip is not None and ip["k"] == "P.Expr" and (ip.get("def") or "").endswith("::None"):
+                continue
+            V = vs["lid"]
+            I = ip["lid"] if ip is not None and ip["k"] == "P.Binding" else None
+            # scope of the bindings: the arm body / the then-branch of the `if let`
+            scope = None
+            for child, par in up(p):
+                if par["k"] == "Arm":
+                    scope = par["body"]
+                    break
+                if par["k"] == "Let" and id(par) in parent and parent[id(par)]["k"] == "If":
+                    scope = parent[id(par)]["then"]
+                    break
+            if scope is None:
+                continue
+            lookups = []
+            for x in walk(scope):
+                if x["k"] == "MethodCall" and x["method"] in LOOKUPS:
+                    r = x["recv"]
+                    while r["k"] in ("AddrOf", "Unary"):
+                        r = r["e"]
+                    if r["k"] == "Path" and r.get("lid") == V:
+                        lookups.append(x)
+            for i, L in enumerate(lookups):
+                n_sites += 1
+                ok = False
+                if I is not None:
+                    chain = up(L)
+                    for child, par in chain:
+                        if par is scope or child is scope:
+                            pass
+                        if par["k"] == "If" and child is not par.get("cond") and mentions(par.get("cond"), I):
+                            ok = True
+                        if par["k"] == "Match" and par.get("src") == "Normal" and child["k"] == "Arm" and mentions(par.get("scrut"), I):
+                            ok = True
+                        if par["k"] == "Block":
+                            sts = par.get("stmts", [])
+                            idx = next((j for j, s_ in enumerate(sts) if s_ is child), len(sts))
+                            for s_ in sts[:idx]:
+                                e_ = stmt_expr(s_)
+                                if e_ is not None and e_["k"] == "If" and mentions(e_.get("cond"), I) and diverges(e_.get("then")):
+                                    ok = True
+                                if e_ is not None and e_["k"] == "Match" and mentions(e_.get("scrut"), I) and any(diverges(a["body"]) for a in e_["arms"]):
+                                    ok = True
+                        if child is scope:
+                            break
+                    if not ok:
+                        # the code that handles the miss
+                        holder, site = None, L
+                        for child, par in chain:
+                            if par["k"] == "LetStmt" and par.get("init") is not None and par["pat"]["k"] == "P.Binding":
+                                holder, site = par["pat"]["lid"], par
+                                break
+                            if par["k"] in ("If", "Block", "Arm"):
+                                break
+                        region = []
+                        # statements after `site` (or after the If that tests the lookup directly) in its block
+                        anchor_stmt = site
+                        for child, par in up(site):
+                            if par["k"] == "Block":
+                                sts = par.get("stmts", [])
+                                idx = next((j for j, s_ in enumerate(sts) if s_ is child), None)
+                                if idx is not None:
+                                    rest = sts[idx + 1:] + ([par["expr"]] if par.get("expr") is not None else [])
+                                    hit_if = None
+                                    for s_ in ([child] if holder is None else rest):
+                                        e_ = stmt_expr(s_)
+                                        if e_ is not None and e_["k"] == "If" and (holder is None or mentions(e_.get("cond"), holder)):
+                                            hit_if = (s_, e_)
+                                            break
+                                    if hit_if is not None:
+                                        if hit_if[1].get("else") is not None:
+                                            region.append(hit_if[1]["else"])
+                                        j = next((k for k, s_ in enumerate(rest) if s_ is hit_if[0]), -1)
+                                        region += rest[j + 1:] if holder is not None else rest
+                                    else:
+                                        region += rest
+                                break
+                        ok = any(mentions(r_, I) for r_ in region)
+                rep.ob(rid, "%s/lookup#%d" % (g.rsplit("::", 1)[-1], i), ok,
+                       "%s takes an object type apart without requiring `indexed_properties: None` and looks a key up in its declared properties (%s) without consulting the index signature where the key is missing: for an object with an index signature an undeclared key is answered as if the object had no such key (`Record<string, number>[\"a\" | \"b\"]` loses members)" % (g, "line %s" % L.get("line")),
+                       "%s:%s" % (f.file, L.get("line")), sample={"fn": g, "index_signature_binding": "bound" if I else "ignored"})
+    rep.floor(rid, "key lookups in the declared properties of objects that may have an index signature", n_sites, 1)
